@@ -9,6 +9,8 @@ TEXT = {
          "The entry-point contract against the jevent spec (soundness/completeness) is NOT yet stated: see coverage.not_decided."),
  'C02': ("json_escape returns exactly out + escape(input) (the NIP-01/JSON.stringify escape function) for every escapable input and never panics there; Event::from_parts returns exactly the canonical packing event_bytes(parts) independent of prior buffer contents; the JSON path zeroes the padding bytes; encode_utf8 is the RFC 3629 encoder.",
          "as_json == event_json(view) and the re-parse lemma are not yet under contract: see coverage.not_decided."),
+ 'C07': ("Filter::as_json is proved to return exactly filter_json(view): the present members in the order ids, authors, kinds, #tags, limit, since, until, separated by single commas, ids/authors as lower-case hex, numbers in decimal, tag values JSON-escaped; the leaf readers used by parse_json_filter are proved against grammar-level specs (integers never wrap, hex members decoded exactly) and the parser itself is total with a structural postcondition.",
+         "The parser's entry-level faithfulness against a jfilter spec and the re-parse lemma are not yet stated: see coverage.not_decided."),
  'C08': ("The escaping used for the canonical serialisation is pinned character class by character class: json_escape == escape spec (\\b \\t \\n \\f \\r \\\" \\\\, other controls as \\u00xx lower-case, everything else verbatim) and is_safe_char == the safe set for all 2^32 code points.",
          "verify/sign_new composition and the cryptographic primitives are not under contract: see coverage.not_decided."),
  'C03': ("Every parsing function of pocket-types reachable from the entry points (UTF-8 decode/encode, JSON string unescape, lexer, hex readers, tags/content readers, parse_json_event, parse_json_filter) is verified by Verus with NO precondition on input bytes or buffer length at the entry points: all index/slice bounds, arithmetic overflow, shifts, panic!/unwrap unreachability and termination obligations are discharged for all inputs and all loop iterations, plus consumed <= input length and structural postconditions (event length field within the buffer, padding zero).",
@@ -31,7 +33,6 @@ NA = {
  'C15': "address stability of an mremap'd mapping behind unsafe slice construction is not expressible as a contract over Rust values; the byte-content half is C04.",
 }
 PENDING = {
- 'C07': "functional filter-JSON contracts not yet built; totality of the filter parser is claimed under C03",
  'C16': "marker codec / rebuild contracts not yet built",
 }
 
